@@ -273,9 +273,11 @@ package rsm
 // gLastAddOK: the validator accepted the chunk most recently handed to it; gStreamValid: it validated the whole stream
 //@ ghost var gLastAddOK bool
 //@ ghost var gStreamValid bool
+//@ ghost var gAddCalls int
 //@ func (v *SnapshotValidator) AddChunk [C15]
 //@ trusted opaque for C15 (hashing / header parsing are outside the subset); only the validator's own state changes
 //@ ghostset gLastAddOK := result
+//@ ghostset gAddCalls := old(gAddCalls) + 1
 
 //@ func (v *SnapshotValidator) Validate [C15]
 //@ trusted opaque for C15
